@@ -180,6 +180,12 @@ class CodecFamily(Family):
                 if v < (1 << 32):
                     lines.append("vdec32 %s %d" % (hx(enc + tail), rng.below(8)))
                 lines.append("vlenp %s %d" % (hx(enc + tail), rng.below(8)))
+                if rng.chance(1, 3):
+                    # the caller's result object overlaps the encoded bytes (at data + off, 8-aligned)
+                    al2, off = rng.pick([(0, 0), (0, 0), (0, 8), (7, 1), (4, 4), (6, 2)])
+                    lines.append("vdec64 %s %d alias%d" % (hx(enc + tail), al2, off)); stats.bump("varint_decode_result_overlaps_input")
+                    if v < (1 << 32):
+                        lines.append("vdec32 %s %d alias%d" % (hx(enc + tail), al2, off))
                 if len(enc) > 1:
                     lines.append("vlenp %s %d" % (hx(enc[:-1]), rng.below(8)))   # truncated
                 if rng.chance(1, 6):
@@ -299,6 +305,8 @@ class CrcFamily(Family):
         yield ("crc:mid", ["crc.big %d %d" % (n, al) for n in mids for al in range(8)]); stats.bump("crc_64KiB_to_MiB_all_alignments")
         # the function is pure: concurrent calls on different (misaligned) buffers must not disturb one another
         yield ("crc:mt", ["crc.mt 4 8191 %d" % (3000 if tier == "quick" else 40000), "crc.mt 6 60001 %d" % (400 if tier == "quick" else 6000)]); stats.bump("crc_concurrent_calls")
+        # buffers beginning, ending and crossing a page boundary, and buffers ending right before an unmapped page
+        yield ("crc:edge", ["crc.edge %d" % (40 if tier == "quick" else 300)]); stats.bump("crc_page_edges")
         # buffers of 4 GiB and more (size_t arithmetic of the loops): thorough tier, and whenever the case budget is enlarged
         # because a proof obligation or the tie broke
         if tier == "thorough" or mult > 1.5:
@@ -323,6 +331,10 @@ class CrcFamily(Family):
                 vals = set(v for v in f.values() if v != "unsupported")
                 if r["real"].startswith("big ") and len(vals) > 1:
                     fails.append(("C17", "buffer of %s bytes at alignment %s: the implementations disagree%s: %s" % (t[1], t[2], " with the standard CRC-32C (ref)" if "ref" in f else "", r["real"]), i))
+                continue
+            if t[0] == "crc.edge":
+                if not r["real"].startswith("edge ok") and not r["real"].startswith("edge unavailable"):
+                    fails.append(("C17", "buffers around a 4 KiB page boundary: %s (implementation:start offset in the page:length; the value is not the standard CRC-32C, or the call died reading past the buffer)" % r["real"], i))
                 continue
             if t[0] == "crc.mt":
                 if not r["real"].startswith("mt ok"):
@@ -903,20 +915,26 @@ class CorruptFamily(Family):
         tl = F.gen_table_case(rng, st, mode="sorted", small=True, nkeys=rng.pick([1, 3, 6, 12, 20]))
         tl = [l.split(" ", 1)[1] if l.startswith("@") else l for l in tl]
         tl = [l for l in tl if l.startswith(("reset", "w."))]
-        tl[1] = " ".join(a for a in tl[1].split(" ") if not a.startswith(("pre=", "thr="))) + " pre=-"
+        # half of the tables are written behind foreign leading bytes (mtbl_writer_init_fd on a positioned descriptor): block
+        # offsets in the index and in the trailer are then absolute, the data-block byte count is not
+        plen = rng.pick([0, 0, 0, 13, 100, 700, 4096])
+        prefix = bytes(rng.below(256) for _ in range(plen))
+        if plen:
+            st.bump("corrupt_table_behind_prefix")
+        tl[1] = " ".join(a for a in tl[1].split(" ") if not a.startswith(("pre=", "thr=", "pos="))) + " pre=" + (hx(prefix) if plen else "-")
         res1 = vlib.run_script(exe, tl)
         fin = [r for r in res1 if r["req"].startswith("w.fin") and r["real"].startswith("file ")]
         if not fin and any(r["req"].startswith("w.fin") for r in res1):
             res1.append({"req": "#corrupt-setup", "real": "w.fin gave no file", "model": "file", "side": []})
         if not fin:
             return res1
-        good = unhx(fin[0]["real"].split(" ")[1])
+        good = prefix + unhx(fin[0]["real"].split(" ")[1])
         ctab = [s[1:] for r in res1 for s in r.get("side", []) if s.startswith("#ctab ")]
         comp = int(dict(a.split("=", 1) for a in tl[1].split(" ")[2:])["comp"])
         keys = [unhx(r["req"].split(" ")[2]) for r in res1 if r["req"].startswith("w.add") and r["real"] == "ok"]
         # layout
         L = len(good); io = int.from_bytes(good[L - 512:L - 504], "little")
-        frames = []; off = 0
+        frames = []; off = plen
         while off < io:
             ln, n = F.varint(good, off); frames.append((off, n, ln)); off += n + 4 + ln
         iln, inn = F.varint(good, io)
@@ -1302,65 +1320,94 @@ FAMILIES["pooled"] = PooledFamily
 
 class TpMultiFamily(Family):
     """SEVERAL clients sharing one pool (each with its own result handler; a pool owner creates the pool, starts the clients,
-    joins them and destroys the pool), mtbl/threadpool.c unmodified under the deterministic scheduler of harness/tp_drv.c,
-    random schedules with spurious wake-ups.  No Lean machine runs alongside (the machine has one client): the scheduler
-    reports dead-locks and mutex misuse, the run reports every client's deliveries and the largest worker count."""
+    joins them and destroys the pool), mtbl/threadpool.c unmodified under the deterministic scheduler of harness/tp_drv.c, in
+    lockstep with the k-client machine MtblModel/TpK.lean: after every turn the pool (count, idle list), every worker's
+    mailbox, every client's result queue / outstanding counter / finished flag / deliveries and the sets of enabled and
+    sleeping threads are compared.  Random schedules with spurious wake-ups."""
     name = "tpmulti"
     variant = "sched"
     def cases(self, pid, seed, tier, mult, stats):
+        for c in self.corpus(pid):
+            yield c
         rng = Rng(seed * 49979687 + 3)
+        k = 0
+        for clients in (1, 2, 3):
+            for mx in (1, 2, 3):
+                for jobs in (0, 1, 2):
+                    for o in (0, 1):
+                        for rep in range(budget(tier, 1, 12, mult)):
+                            k += 1
+                            yield self.mk(rng, clients, mx, jobs, o, stats, "tpmulti:%d:s%d" % (seed, k))
         for i in range(budget(tier, 250, 4000, mult)):
             clients = rng.pick([2, 2, 2, 3, 3, 4]); mx = rng.pick([1, 2, 2, 3, 4]); jobs = rng.pick([1, 2, 3, 4, 6]); o = rng.below(2)
-            stats.bump("tpmulti_clients_%d" % clients); stats.bump("tpmulti_max_%d" % mx)
-            lines = ["tp.multi clients=%d max=%d jobs=%d ord=%d" % (clients, mx, jobs, o)]
-            lines += ["tp.auto %d" % (rng.next() & 0x3fffffff) for _ in range(400 + 260 * clients * jobs)]
-            yield ("tpmulti:%d:%d" % (seed, i), lines)
-    def run(self, exe, lines):
-        pr = vlib.Proc([exe])
-        res = []
-        try:
-            for l in lines:
-                reply, _ = pr.ask(l)
-                res.append({"req": l, "real": reply, "model": reply, "side": []})
-                if pr.dead or reply.startswith("pick none") or "PROBLEM" in reply:
-                    break
-        finally:
-            pr.close()
-        if res:
-            res[-1]["stderr"] = getattr(pr, "stderr", "")[-2000:]
-        return res
+            yield self.mk(rng, clients, mx, jobs, o, stats, "tpmulti:%d:%d" % (seed, i))
+    def mk(self, rng, clients, mx, jobs, o, stats, cid):
+        stats.bump("tpmulti_clients_%d" % clients); stats.bump("tpmulti_max_%d" % mx)
+        lines = ["tp.multi clients=%d max=%d jobs=%d ord=%d" % (clients, mx, jobs, o)]
+        lines += ["tp.auto %d" % (rng.next() & 0x3fffffff) for _ in range(60 + 40 * clients + 260 * clients * jobs)]
+        return (cid, lines)
     def oracle(self, res):
         fails = []
         if not res:
             return fails
         kv = dict(a.split("=", 1) for a in res[0]["req"].split(" ")[1:])
         clients, mx, jobs, o = int(kv["clients"]), int(kv["max"]), int(kv["jobs"]), int(kv["ord"])
-        last = res[-1]["real"]
+        last = None
         for i, r in enumerate(res):
             real = r["real"]
-            if real in ("asan", "abort", "hang") or real.startswith("crash"):
-                fails.append(("C13", "pool shared by %d clients: the program died / hung: %s %s" % (clients, real, res[-1].get("stderr", "")[-300:]), i)); return fails
+            if real in ("asan", "abort", "hang") or real.startswith("crash") or real.startswith("exit:"):
+                fails.append(("C13", "pool shared by %d clients: the program died / hung: %s %s" % (clients, real, r.get("stderr", "")[-300:]), i)); return fails
+            if "mst " not in real:
+                continue
+            last = (i, real)
             if "PROBLEM=" in real:
                 fails.append(("C13", "pool shared by %d clients: %s" % (clients, real[real.index("PROBLEM="):][:200]), i)); return fails
-            m = re.search(r"maxcount=(\d+)", real)
+            m = re.search(r" count=(\d+)", real)
             if m and int(m.group(1)) > mx:
                 fails.append(("C13", "pool shared by %d clients runs %s worker threads, configured maximum %d" % (clients, m.group(1), mx), i)); return fails
-        if last.startswith("pick none") and " done " not in last:
-            fails.append(("C13", "pool shared by %d clients (max=%d jobs=%d ordered=%d): dead-lock — no thread can run and the pool owner has not returned: %s" % (clients, mx, jobs, o, last[:200]), len(res) - 1))
-        elif " done " in last:
             for c in range(clients):
-                m = re.search(r"del%d=\[([^\]]*)\]" % c, last)
+                m = re.search(r"del%d=\[([^\]]*)\]" % c, real)
+                got = [int(x) for x in m.group(1).split(",") if x] if m else []
+                if len(set(got)) != len(got) or any(x < 0 or x >= jobs for x in got) or (o and got != list(range(len(got)))):
+                    fails.append(("C13", "pool shared by %d clients: client %d was delivered %s (%s; a result twice, a result nobody submitted, or out of order)" % (clients, c, got, "ordered" if o else "unordered"), i)); return fails
+            if " done" in real.split(" del0")[0]:
+                break
+            if real.startswith("pick none"):
+                fails.append(("C13", "pool shared by %d clients (max=%d jobs=%d ordered=%d): dead-lock — no thread can run and the pool owner has not returned: %s" % (clients, mx, jobs, o, real[:200]), i)); return fails
+        if last is None:
+            return fails
+        i, real = last
+        if "mst done" in real:
+            for c in range(clients):
+                m = re.search(r"del%d=\[([^\]]*)\]" % c, real)
                 got = [int(x) for x in m.group(1).split(",") if x] if m else None
                 want = list(range(jobs))
                 if got is None or (got != want if o else sorted(got) != want):
-                    fails.append(("C13", "pool shared by %d clients: client %d was delivered %s, submitted %s (%s)" % (clients, c, got, want, "in order" if o else "any order"), len(res) - 1))
-        elif not last.startswith("pick none"):
-            fails.append(("C13", "pool shared by %d clients: not finished after %d turns (bound on real steps exceeded): %s" % (clients, len(res), last[:160]), len(res) - 1))
+                    fails.append(("C13", "pool shared by %d clients: client %d was delivered %s, submitted %s (%s)" % (clients, c, got, want, "in order" if o else "any order"), i))
+        elif i == len(res) - 1 and not res[-1].get("cut"):
+            en = re.search(r" en=\[([^\]]*)\]", real)
+            if en and en.group(1) == "":
+                fails.append(("C13", "pool shared by %d clients: every live thread sleeps on a condition variable and the pool owner has not returned: %s" % (clients, real[:200]), i))
         return fails
+    def run(self, exe, lines):
+        real = vlib.Proc([exe]); model = vlib.Proc([vlib.MODEL_EXE])
+        res = []
+        try:
+            for l in lines:
+                rr, side = real.ask(l)
+                mr, _ = model.ask(l)
+                res.append({"req": l, "real": rr, "model": mr, "side": side})
+                if real.dead or model.dead or rr != mr or rr.startswith("pick none") or "PROBLEM" in rr or "mst done" in rr:
+                    break
+        finally:
+            real.close(); model.close()
+        if res:
+            res[-1]["stderr"] = getattr(real, "stderr", "")[-2000:]
+        return res
     def tie_props(self, res, idx):
-        return set()
+        return {"C13", "C14"}
     def nontrivial(self, pid, lines, res):
-        return bool(res) and " done " in res[-1]["real"]
+        return bool(res) and any("mst done" in r["real"] for r in res)
     def keep_prefix(self, lines):
         return 1
 
@@ -1373,7 +1420,7 @@ reg("C13", ["tp", "tpmulti", "pooled"], "mtbl/threadpool.c compiled unmodified i
      "pooled writer = sequential writer for every interleaving of adds and in-order deliveries (C13_writer), pooled sorter output for every completion order of the chunk jobs (C13_sorter): the two theorems take from the machine that results are delivered in dispatch order / each exactly once / all before the join (C13_order, C13_complete) and from C14 that caller and handler touch disjoint fields",
      "termination is proved through a progress measure for every schedule with finitely many spurious wake-ups (C13_progress, C13_steps_bounded, C13_no_hang, C13_can_finish); that the OS keeps scheduling some runnable thread is assumed",
      "thread creation does not fail",
-     "several callers on one pool: pool-level theorems for any number of callers (C13_shared_bound, C13_shared_exclusive, C13_shared_no_lost_wakeup over MtblModel/TpShare.lean), the signal-site table regenerated from threadpool.c (C13_signal_sites) and the tpmulti family (2-4 clients under the deterministic scheduler: dead-lock, mutex misuse, deliveries, bound); there is no k-client machine, so no lockstep comparison for that configuration"],
+     "several clients on one pool: the k-client machine MtblModel/TpK.lean (owner, any number of clients each with caller and result handler, shared workers) runs in lockstep with threadpool.c under the deterministic scheduler (tpmulti family: pool, every worker's mailbox, every client's queue / counter / flag / deliveries, enabled and sleeping sets compared after every turn; 1-4 clients); proved for every number of clients: the bound (C13_kclient_bound), exclusive hand-out (C13_kclient_exclusive, _one_holder, _held, _idle), the hand-over protocol (C13_kclient_protocol); plus the abstract pool model TpShare (C13_shared_bound, C13_shared_exclusive, C13_shared_no_lost_wakeup) and the signal-site table regenerated from threadpool.c (C13_signal_sites); NOT proved for several clients: termination and per-client delivery order / completeness (one-client theorems; dead-lock and delivery oracles of the tpmulti family on the real run)"],
     generated=["OwnerSites"], variants=["sched", "A"], max_s={"quick": 150, "thorough": 1800})
 
 
@@ -1413,11 +1460,11 @@ class MtFamily(Family):
 
 FAMILIES["mt"] = MtFamily
 
-reg("C14", ["tp", "mt"], "static: the access sites of mtbl/threadpool.c (struct, field, read/write, mutexes held) are re-extracted from the source on every run and re-checked against the hand-declared site table and the access labels of the machine (theorems C14_sites_declared, C14_declared_in_model); the field accesses of writer.c / sorter.c per function with pool branch and join markers, and the assignments to the CRC function pointer, are re-extracted and re-checked against the role tables (C14_writer_*, C14_sorter_*, C14_crc_pointer); "
-    "dynamic tie of the machine: the tp family of C13 (threadpool.c under the deterministic scheduler in lockstep with the machine); "
+reg("C14", ["tp", "tpmulti", "mt"], "static: the access sites of mtbl/threadpool.c (struct, field, read/write, mutexes held) are re-extracted from the source on every run and re-checked against the hand-declared site table and the access labels of the machine (theorems C14_sites_declared, C14_declared_in_model); the field accesses of writer.c / sorter.c per function with pool branch and join markers, and the assignments to the CRC function pointer, are re-extracted and re-checked against the role tables (C14_writer_*, C14_sorter_*, C14_crc_pointer); "
+    "dynamic tie of the machines: the tp and tpmulti families of C13 (threadpool.c under the deterministic scheduler in lockstep with the one-client machine and with the k-client machine: several clients on one pool); "
     "search for a concrete race: a ThreadSanitizer build of the library runs 1..4 caller threads, each with its own pooled writer and pooled sorter, sharing ONE pool of 1..16 threads, together with 0..8 threads iterating and querying one shared reader through their own iterators (1..10 rounds, tiny blocks and sorter chunks so that many jobs are in flight); non-trivial = a completed run with >= 2 callers or >= 2 reader threads",
     ["the C11 memory model, compiler transformations, the compression libraries and malloc are not modelled: the theorem is about the ownership/locking discipline of the machine and its agreement with the extracted access sites (partial)",
-     "the machine has one caller and one result handler; several callers sharing a pool are covered at run time by ThreadSanitizer only (partial); the writer/sorter field partition between caller and result handler (C14_writer_partition, C14_writer_join_first, C14_sorter_partition, C14_sorter_join_first), reader immutability (C14_reader_immutable) and the single writer of the CRC function pointer (C14_crc_pointer) are table theorems over access tables re-extracted lexically from writer.c, sorter.c, reader.c, block.c, libmy/crc32c.c on every run",
+     "one client: C14_norace over MtblModel/Tp.lean; several clients sharing a pool: C14_norace_shared over the k-client machine MtblModel/TpK.lean, whose access labels are those of the one-client machine evaluated on each thread's view and relabelled with the client's own queue (so the tie to the access-site table carries over); the writer/sorter field partition between caller and result handler (C14_writer_partition, C14_writer_join_first, C14_sorter_partition, C14_sorter_join_first), reader immutability (C14_reader_immutable) and the single writer of the CRC function pointer (C14_crc_pointer) are table theorems over access tables re-extracted lexically from writer.c, sorter.c, reader.c, block.c, libmy/crc32c.c on every run",
      "a critical section is one atomic step of the machine"],
     generated=["AccessSites", "OwnerSites"], variants=["sched", "tsan"], max_s={"quick": 100, "thorough": 1500})
 
